@@ -6,12 +6,23 @@ import (
 	"crypto/ecdsa"
 	"crypto/x509"
 	"encoding/hex"
+	"time"
 )
+
+// verifDay is the UTC midnight of t (the certificate template's validity starts at "today").
+func verifDay(t time.Time) time.Time {
+	u := t.UTC()
+	return time.Date(u.Year(), u.Month(), u.Day(), 0, 0, 0, 0, time.UTC)
+}
 
 // VerifCreds returns a textual digest of the credentials derived from seed:
 // client and server certificate public keys, template serials/validity, and
 // the ClientHello random. (Signatures are randomised and excluded.)
+// The validity window is by design anchored at the current UTC day, so it is
+// reported relative to the day of the call ("today" / "+1month"), never as a
+// date: a digest that contains a date goes stale at the next midnight.
 func VerifCreds(seed []byte) (string, error) {
+	d0 := verifDay(time.Now())
 	c, s, err := certsFromSeed(seed)
 	if err != nil {
 		return "", err
@@ -20,6 +31,7 @@ func VerifCreds(seed []byte) (string, error) {
 	if err != nil {
 		return "", err
 	}
+	d1 := verifDay(time.Now())
 	out := ""
 	for _, cert := range [][]byte{c.Certificate[0], s.Certificate[0]} {
 		x, err := x509.ParseCertificate(cert)
@@ -27,7 +39,25 @@ func VerifCreds(seed []byte) (string, error) {
 			return "", err
 		}
 		pk := x.PublicKey.(*ecdsa.PublicKey)
-		out += pk.X.Text(16) + "." + pk.Y.Text(16) + "." + x.SerialNumber.Text(16) + "." + x.NotBefore.UTC().Format("20060102150405") + "." + x.NotAfter.UTC().Format("20060102150405") + "/"
+		out += pk.X.Text(16) + "." + pk.Y.Text(16) + "." + x.SerialNumber.Text(16) + "." + verifRel(x.NotBefore, d0, d1) + "." + verifUntil(x.NotBefore, x.NotAfter) + "/"
 	}
 	return out + hex.EncodeToString(r[:]), nil
+}
+
+// verifRel: "today" iff the validity starts at the UTC midnight of the day on
+// which the credentials were derived (d0/d1: the day before and after the
+// derivation, equal unless midnight passed in between).
+func verifRel(nb, d0, d1 time.Time) string {
+	if nb.Equal(d0) || nb.Equal(d1) {
+		return "today"
+	}
+	return "day" + nb.UTC().Format("20060102150405")
+}
+
+// verifUntil: "+1month" iff the validity ends one calendar month after it starts.
+func verifUntil(nb, na time.Time) string {
+	if na.Equal(nb.UTC().AddDate(0, 1, 0)) {
+		return "+1month"
+	}
+	return na.Sub(nb).String()
 }
